@@ -397,6 +397,9 @@ pub fn run(c: &Case) -> Outcome {
     if n >= 2 {
         out.classes.push("several_clients");
     }
+    if c.preload > 0 {
+        out.classes.push("long_lived_connection");
+    }
     if alive.iter().any(|a| !*a) {
         out.classes.push("one_client_dropped_by_an_oversize_message");
     }
